@@ -331,6 +331,17 @@ def _offset_case(rng, tier, idx, ty, n, nq):
         qt = ' '.join(T(x) for x in q)
         if rng.below(10) < 4:
             lines.append('kd.nn ' + qt)
+            if rng.chance(0.5):
+                # the NEXT query on the same tree is a near repeat: a fraction of the point spacing away — relative to the
+                # coordinates (1e5 .. 1e7 spacings from the origin) that is far below any fuzzy "same query as last time" test
+                # (seeded change c08d: a one-entry answer cache keyed on `point.isApprox(lastQuery_)`), yet the nearest point differs
+                lo = [min(p[j] for p in pts) for j in range(cd)]
+                hi = [max(p[j] for p in pts) for j in range(cd)]
+                for _ in range(rng.int(1, 3)):
+                    q = [min(hi[j], max(lo[j], q[j] + rng.gauss() * spacing * 0.7)) for j in range(cd)]
+                    if f32:
+                        q = [to_f32(x) for x in q]
+                    lines.append('kd.nn ' + ' '.join(T(x) for x in q))
         else:
             k = rng.choice([1, kmax, rng.int(1, kmax), min(kmax, rng.int(2, 12)), min(kmax, 10)])
             lines.append('kd.knn %d %s' % (k, qt))
